@@ -25,15 +25,22 @@ CFG = {
                  "correspondence check",
     "design_ref": "DESIGN.md §4 C20",
     "n_quick": 96, "n_thorough": 600,
-    "rule": "9 fixed corner cases (incl. the repaired defect's input at 2^-7 and 2^-20 and the known-finding example) + "
-            "point sets in general position (no 3 collinear, no 4 concyclic: exact integer rejection) on integer grids "
-            "of extent <= 127 (<= 254 for the large class) so that every float64 operation of the implementation incl. "
-            "the super-triangle tests is exact; 3-40 points model-compared, 1/16 of the cases 41-~125 points checker "
-            "only; uniform / clustered / flat-hull / near-line / strip / ring; random insertion order; 3/4 of the cases "
-            "scaled by 2^-20..2^20 and half of them offset up to 2^30 (metamorphic oracle: same triangle set as "
-            "unscaled); distinct by (points, scale, offset); non-trivial = at least 4 points",
+    "rule": "11 fixed corner cases (the repaired defect's input at 2^-7 and 2^-20, the known-finding example, a sparse "
+            "sliver that leaves input points without triangles) + point sets in general position (no 3 collinear, no 4 "
+            "concyclic: exact integer rejection): (i) integer grids of extent <= 127 (<= 254 for the large class) where "
+            "every float64 operation of the implementation incl. the super-triangle tests is exact, 3-40 points "
+            "model-compared, 1/16 of the cases 41-~125 points checker only, uniform / clustered / flat-hull / near-line / "
+            "strip / ring; (ii) 1/8 sparse thin near-collinear slivers (4-12 points, 11 directions, length 2^5..2^16 steps, "
+            "sideways spread 1-40 steps: aspect ratios down to 1/65536) admitted by an exact shadow run that requires every "
+            "float64 predicate to have the exact sign with a 2^-40 relative margin; (iii) 1/16 grid inputs with 1-3 exactly "
+            "repeated points (outside the statement: judged on vertex identity, attribute lengths and the four conjuncts "
+            "only); random insertion order; 3/4 of the cases scaled by 2^-20..2^20, half of those offset up to 2^30 (2^40 for "
+            "slivers) with the metamorphic oracle 'same triangle set as unscaled'; distinct by (points, scale, offset); "
+            "non-trivial = at least 4 points",
     "trusted": ["float64 arithmetic of the implementation is exact on the generated inputs by construction (bound "
-                "12*D^4 < 2^53 checked per case by the harness: exactOK); coordinates reach Coq as integers in grid units",
+                "12*D^4 < 2^53 checked per case by the harness: exactOK) or, for the sliver class, sign-faithful with a "
+                "2^-40 margin on every predicate the run evaluates (exact big-integer shadow run in the harness: faithful); "
+                "coordinates reach Coq as integers in grid units",
                 "known-finding classification (every missing true-Delaunay triangle has a super-triangle vertex inside "
                 "or on its circumcircle; output otherwise a duplicate-free, consistently wound subset of the brute-force "
                 "Delaunay triangulation) is computed by the harness in exact integer arithmetic; such an input is written "
